@@ -121,8 +121,17 @@ func inboundMappedType(typ *schema.TypeUnion, stg schema.UnionRepresentation_Key
 // asKinded can be called on a kinded union node to obtain a node
 // representing one of its members, identified by kind.
 func (w *_nodeRepr) asKinded(stg schema.UnionRepresentation_Kinded, kind datamodel.Kind) *_nodeRepr {
-	name := stg.GetMember(kind)
 	members := w.schemaType.(*schema.TypeUnion).Members()
+	if haveIdx, mval := unionMember(w.val); haveIdx >= 0 {
+		// The member that is set *is* this node. An accessor for another kind is then
+		// answered by that member with the usual wrong-kind error (rather than by an
+		// unset member of the requested kind, or by none at all).
+		w2 := *w
+		w2.val = mval
+		w2.schemaType = members[haveIdx]
+		return &w2
+	}
+	name := stg.GetMember(kind)
 	for i, member := range members {
 		if member.Name() != name {
 			continue
@@ -446,6 +455,8 @@ func (w *_nodeRepr) Length() int64 {
 		return (*_node)(w).Length()
 	case schema.UnionRepresentation_Kinded:
 		return w.asKinded(stg, w.Kind()).Length() // the member's representation length, not its type-level one
+	case schema.UnionRepresentation_Stringprefix:
+		return -1 // a string
 	default:
 		return (*_node)(w).Length()
 	}
